@@ -107,8 +107,7 @@ def run(ck):
   bad = copy.deepcopy([b for b in beh if b["cfg"]["S"] == 2 and b["cfg"]["mode"] == "rep"][0])
   bad["steps"][1]["sc"] = True
   bad["steps"][1]["stats"] = bad["steps"][1]["stats"] + [1]
-  sub = core.Check(ck.pid, ck.level, ck.tier, ck.seed)
-  sub.work = ck.work
+  sub = core.Check(ck.pid, ck.level, ck.tier, ck.seed, parent=ck)
   ds_replay(sub, [bad], "selftest")
   ck.selftest("R: corrupted expected statistics refresh is flagged", len(sub.violations) > 0)
   # ---- R: Tearfree ------------------------------------------------------------------
@@ -121,7 +120,7 @@ def run(ck):
   t0 = copy.deepcopy(next(t for t in traces if t["cfg"]["P"] > 1 and t["cfg"]["sched"] == "none"))
   t0["events"][1]["pc"] = True
   t1 = copy.deepcopy(traces[0]); t1["events"][2]["ca"] += 1
-  sub = core.Check(ck.pid, ck.level, ck.tier, ck.seed); sub.work = ck.work
+  sub = core.Check(ck.pid, ck.level, ck.tier, ck.seed, parent=ck)
   vs = sub.validate("DSControl_Trace", "DSControl_Trace",
                     [{"cfg": t["cfg"], "events": t["events"]} for t in (t0, t1)])
   ck.selftest("V: preconditioner change bit on a non-refresh step is rejected", not vs[0]["accepted"])
